@@ -2,6 +2,7 @@
 import z3
 from mirsym.harness import *
 
+WORLD = ('marginfi', 'typecrate', 'drift')
 ASSUMPTIONS = ['Clock::get failure is modelled by the code itself (unwrap_or(0)); the clock value is any i64']
 OPS = ENUMS['BankOperationalState']; KINDS = ENUMS['InstructionKind']
 
@@ -59,4 +60,5 @@ def t_paused(world):
 
 
 def tasks(tier):
-    return [('bank_state', t_bank_state), ('paused', t_paused)]
+    from specs.flows import flow_task, FLOWS
+    return [('bank_state', t_bank_state), ('paused', t_paused)] + [(f'flow:{n}', flow_task(n, ('C14',))) for n in FLOWS if FLOWS[n]['kinds']]
